@@ -350,7 +350,7 @@ func (e *Env) assumeShape(v Value) {
 
 func (e *Env) sliceWF(x *Slice) string {
 	return mkAnd(sx("<=", "0", x.Arr), sx("<=", "0", x.Off), sx("<=", "0", x.Len), sx("<=", x.Len, x.Cap),
-		sx("<=", x.Cap, "4611686018427387904"),
+		sx("<=", x.Cap, "281474976710656"),
 		mkImp(mkEq(x.Arr, "0"), mkAnd(mkEq(x.Len, "0"), mkEq(x.Cap, "0"))))
 }
 
